@@ -2,23 +2,10 @@
 //! vcheck-bin <ID> --replay <file>           strict replay of one case file
 //! (internal) --child                        run inside a supervised child process
 
-mod data;
-mod eval;
-mod exec;
-mod extract_model;
-mod follow_child;
-mod gen_query;
-mod gen_stmt;
-mod gen_typed;
-mod model_agg;
-mod props;
-mod run;
-mod sql;
-mod stmt;
-mod tape;
-mod value;
 
 use std::path::PathBuf;
+
+use vcheck::{follow_child, props, run};
 use std::sync::Arc;
 
 use run::{Property, Tier};
@@ -116,6 +103,36 @@ fn main() {
     }
     if args.len() >= 2 && args[0] == "--run-job" {
         std::process::exit(props::c18::run_job_main(&args[1]));
+    }
+    if args.len() >= 3 && args[1] == "--from-fuzz" {
+        // turn a libFuzzer artifact into a replay file and judge it with the strict replay path
+        let data = std::fs::read(&args[2]).unwrap_or_default();
+        let out_dir = run::verif_dir().join("out/replays");
+        let _ = std::fs::create_dir_all(&out_dir);
+        let name = std::path::Path::new(&args[2]).file_name().map(|n| n.to_string_lossy().to_string()).unwrap_or_default();
+        let dest = out_dir.join(format!("{}-fuzz-{}.json", args[0], name));
+        let doc = match args[0].as_str() {
+            "C14" => serde_json::json!({"property": "C14", "note": "from libFuzzer artifact", "case": {"text": String::from_utf8_lossy(&data), "kind": "fuzz", "all_prefixes": false, "must_reject": false}}),
+            "C09" => {
+                use run::Property;
+                let words = props::c09::words_from_bytes(&data);
+                let ctx = run::Ctx::standalone("convert");
+                let case = props::c09::C09.generate(&mut vcheck::tape::Tape::new(&words), &ctx);
+                serde_json::json!({"property": "C09", "note": "from libFuzzer artifact", "case": case})
+            }
+            _ => {
+                eprintln!("--from-fuzz is only for C09 and C14");
+                std::process::exit(2);
+            }
+        };
+        std::fs::write(&dest, serde_json::to_string_pretty(&doc).unwrap()).expect("write replay");
+        let mut a = vec![args[0].clone(), "--replay".to_string(), dest.to_string_lossy().to_string()];
+        a.extend(args.iter().skip(3).cloned());
+        let code = match args[0].as_str() {
+            "C14" => dispatch(props::c14::C14, &a),
+            _ => c09_driver(&a),
+        };
+        std::process::exit(code);
     }
     if args.is_empty() {
         eprintln!("usage: vcheck-bin <ID> quick|thorough|--replay <file>");
